@@ -128,13 +128,17 @@ static void client (void *arg) {
 			int a = o->a;
 			if (!strcmp (o->name, "new")) {
 				nsync_note nn;
-				if (o->x == 1) rt_fail_malloc_at (1);
+				int consumed;
+				/* x = k >= 1: the k-th allocation made during this constructor call fails (k = 1 is the note itself; the specification's
+				   constructor makes no other, so k >= 2 is never consumed on code that conforms) */
+				if (o->x >= 1 && o->x <= 8) rt_fail_malloc_at (o->x);
 				S.pending_new[t] = a;
 				nn = nsync_note_new (o->b ? S.note[o->b] : NULL, deadline (o->dl));
+				consumed = o->x >= 1 && o->x <= 8 && !rt_fail_pending ();
 				rt_fail_malloc_at (0);
 				S.pending_new[t] = 0;
 				if (o->x == 1 && nn != NULL) rt_violation ("O-crash", "nsync_note_new returned a note although its allocation failed");
-				if (o->x != 1 && nn == NULL) rt_violation ("O-crash", "nsync_note_new returned NULL although memory was available");
+				if (!consumed && nn == NULL) rt_violation ("O-crash", "nsync_note_new returned NULL although memory was available");
 				if (nn != NULL) { S.note[a] = nn; S.dl_of[a] = o->dl; S.lpar[a] = o->b; S.freed[a] = 0; { char nm[16]; snprintf (nm, sizeof nm, "note%d", a); rt_name (nn, sizeof *nn, nm); } }
 				S.ret[t] = nn != NULL ? a : 0;
 			} else if (!strcmp (o->name, "notify")) {
